@@ -70,4 +70,6 @@ pub fn run(ctx: &Ctx) {
     });
     crate::hist::histories(ctx, P, "key-histories", "PrivateKey::new / public / address, a sequence on one fresh thread", crate::hist::c04_ops());
     crate::hist::long_runs(ctx, P, "key-long-runs", "PrivateKey::new / address, a long run on one fresh thread", if ctx.quick() { 40 } else { 300 }, crate::hist::c04_nth());
+    crate::hist::under_entropy_answers(ctx, P, "keys-under-entropy-answers", "PrivateKey::new / public / address with the entropy source scripted", crate::hist::c04_ops());
+    crate::hist::cross_thread(ctx, P, "keys-across-threads", "PrivateKey / Mnemonic built on one thread and used on another", crate::hist::key_cases(ctx.seed));
 }
